@@ -10,6 +10,9 @@ import (
 	"database/sql"
 	"database/sql/driver"
 	"errors"
+	"runtime"
+	"sort"
+	"strings"
 	"sync"
 	"time"
 
@@ -68,6 +71,17 @@ type Step struct {
 	// Hold: while this Prepare call is released the controller holds Mux.RLock (a reader in the
 	// middle of a lookup), so that the preparer queues for the write lock; dropped once nothing moves
 	Hold bool `json:"hold,omitempty"`
+	// Probe: before this decision, if some goroutine is neither parked nor finished, wait until the
+	// whole process is at rest and record who is blocked -- even when the harness expects the wait
+	// (a goroutine waiting for another one's Prepare call); an unexpected wait is always looked into
+	Probe bool `json:"probe,omitempty"`
+}
+
+// Quiet is a quiet point: when Pos events had been logged every goroutine of the programs was parked
+// (at a gate of the harness, or finished) or blocked; Stuck = the blocked ones, ascending.
+type Quiet struct {
+	Pos   int   `json:"pos"`
+	Stuck []int `json:"stuck"`
 }
 
 type controller struct {
@@ -79,6 +93,9 @@ type controller struct {
 	widths  []int // number of releasable calls at each decision (for systematic enumeration)
 	kinds   []int // status of the released actor at each decision
 	hang    bool
+	quiets  []Quiet
+	probes  int // quiet points that needed the whole-process rest test
+	dump    string // goroutine dump of the first quiet point with a blocked goroutine (diagnosis only)
 }
 
 func (c *controller) log(e Ev) { c.trace = append(c.trace, e) }
@@ -149,12 +166,128 @@ func (c *controller) settle() {
 	}
 }
 
+// atRest: no goroutine of the process but the caller is running, runnable or in a system call (cgo:
+// SQLite).  Unlike a time-out this does not mistake a goroutine that is merely slow (a loaded
+// machine) for a blocked one: a goroutine that could run is "runnable" however long it is kept waiting.
+var lastDump string
+
+func atRest() bool {
+	buf := make([]byte, 1<<18)
+	n := runtime.Stack(buf, true)
+	lastDump = string(buf[:n])
+	first := true
+	for _, blk := range strings.Split(string(buf[:n]), "\n\n") {
+		if first { // the calling goroutine
+			first = false
+			continue
+		}
+		if !strings.HasPrefix(blk, "goroutine ") {
+			continue
+		}
+		i, j := strings.Index(blk, "["), strings.Index(blk, "]")
+		if i < 0 || j < i {
+			continue
+		}
+		st := blk[i+1 : j]
+		if strings.HasPrefix(st, "running") || strings.HasPrefix(st, "runnable") || strings.HasPrefix(st, "syscall") {
+			if strings.Contains(blk, "os/signal.signal_recv") || strings.Contains(blk, "os/signal.loop") {
+				continue
+			}
+			return false
+		}
+	}
+	return true
+}
+
+const (
+	restSamples = 3
+	restEvery   = 2 * time.Millisecond
+	restGiveUp  = 600 * time.Millisecond
+)
+
+// quietPoint is called after settle, before a decision.  With no goroutine running the point is quiet
+// with nobody blocked.  Otherwise the running ones are blocked or slow: if the wait is not one the
+// harness expects (or the step asks for a probe) it waits until the whole process is at rest in
+// restSamples consecutive samples with nothing having moved, and records who is blocked; if the
+// process does not come to rest (or the wait is an expected one) nothing is recorded for this decision.
+func (c *controller) quietPoint(probe bool) {
+	snap := func() (running []int, expected bool, v int64, pos int) {
+		c.mu.Lock()
+		defer c.mu.Unlock()
+		expected = true
+		for _, a := range c.actors {
+			if a.status != stRunning {
+				continue
+			}
+			running = append(running, a.id)
+			ok := false
+			if a.curText != "" {
+				for _, b := range c.actors {
+					if b != a && b.status == stParkPrep && b.curQ == a.curQ {
+						ok = true
+					}
+				}
+			}
+			if !ok {
+				expected = false
+			}
+		}
+		sort.Ints(running)
+		return running, expected, c.version, len(c.trace)
+	}
+	running, expected, v, pos := snap()
+	if len(running) == 0 {
+		c.quiets = append(c.quiets, Quiet{Pos: pos, Stuck: []int{}})
+		return
+	}
+	if expected && !probe {
+		return
+	}
+	c.probes++
+	good := 0
+	for dl := time.Now().Add(restGiveUp); time.Now().Before(dl); time.Sleep(restEvery) {
+		r2, _, v2, p2 := snap()
+		if len(r2) == 0 {
+			c.quiets = append(c.quiets, Quiet{Pos: p2, Stuck: []int{}})
+			return
+		}
+		if v2 != v || p2 != pos {
+			v, pos, good = v2, p2, 0
+			continue
+		}
+		if !atRest() {
+			good = 0
+			continue
+		}
+		good++
+		if good >= restSamples {
+			r3, _, v3, p3 := snap()
+			if v3 == v && p3 == pos {
+				c.quiets = append(c.quiets, Quiet{Pos: pos, Stuck: r3})
+				if c.dump == "" {
+					c.dump = lastDump
+				}
+				return
+			}
+			good = 0
+		}
+	}
+}
+
 // run drives the actors to completion following the script; returns false on a hang.
 func (c *controller) run(script []Step) {
 	k := 0
 	idleSince := time.Now()
+	lastQuiet := -1
 	for {
 		c.settle()
+		c.mu.Lock()
+		np := len(c.trace)
+		c.mu.Unlock()
+		if np != lastQuiet { // one quiet point per position
+			lastQuiet = np
+			c.quietPoint(k < len(script) && script[k].Probe)
+		}
 		c.mu.Lock()
 		var avail []*actor
 		alldone, othersDone := true, true
